@@ -277,6 +277,8 @@ JudgeOrHalt(i) ==
           (IF ~WfReg(o, "wrk") THEN {<<i, "L1", "C09", "WrkChainIdsNotSequential">>, <<i, "L1", "C08", "WrkChainIdsNotSequential">>} ELSE {})
        \cup (IF ~WfReg(o, "bcn") THEN {<<i, "L1", "C09", "BeaconIdsNotSequential">>, <<i, "L1", "C08", "BeaconIdsNotSequential">>} ELSE {})
        \cup (IF ~WfEnt(o) THEN {<<i, "L1", "C03", "PurchaseOrderIdsNotSequential">>} ELSE {})
+       \* what does not depend on the shape of the state is still judged: agreement of the replicas (C01)
+       \cup { <<i, "L1", m[1], m[2]>> : m \in ReplicaMonitors(Trace[i]) }
   ELSE IF Trace[i].post.halted
   THEN {<<i, "L1", "C14", IF EntDenomChanged(Trace[i - 1].post) THEN "HaltedAfterEnterpriseDenomChange" ELSE "Halted">>}
   ELSE Judge(i)
